@@ -82,7 +82,7 @@ static size_t gen_size(size_t maxn)
 static FILE* g_casef = NULL;
 static u32 g_caseId = 0;
 static u64 g_nrecords = 0;
-#define MAXARGS 16
+#define MAXARGS 72
 typedef struct { u32 op, id, n; const void* p[MAXARGS]; u32 len[MAXARGS]; u64 ints[MAXARGS]; } rec_t;
 static void rec_begin(rec_t* r, u32 op) { r->op = op; r->id = ++g_caseId; r->n = 0; }
 static void rec_bytes(rec_t* r, const void* p, size_t len) { r->p[r->n] = p; r->len[r->n] = (u32)len; r->n++; }
